@@ -84,76 +84,75 @@ def run(ctx: Ctx) -> None:
     ctx.rule("C16.R3", "exactly k individuals for any iterable input (yield count + iterator typestate)")
     ctx.rule("C16.R4", "elitism sees the whole population: host combinators pass the complete input; builders place ElitismStep under them")
 
+    from ..modelinterp import Budget, Effect, Interp, Obj, Sym, UNKNOWN, _NONE
+    from .c17model import SelScript, run_selection
     elit: list[FunctionInfo] = []
+    tags = ["i1", "i2", "i3", "i4"]
+    rank_sets = [{"i1": 1.0, "i2": 4.0, "i3": 2.0, "i4": 3.0}, {"i1": 5.0, "i2": 5.0, "i3": 1.0, "i4": 7.0}, {"i1": -2.0, "i2": -9.0, "i3": -2.0, "i4": -1.0},
+                 {"i1": 2.0, "i2": 2.0, "i3": 2.0, "i4": 9.0}]
     for c in prog.subclasses(STEP):
-        it = c.methods.get("iterate")
-        if it is None:
+        it = prog.lookup_method(c, "iterate")
+        if it is None or it.cls is None or it.cls.fullname == STEP or "litism" not in c.name:
             continue
-        for y in walk_local(it.node):
-            if isinstance(y, ast.YieldFrom) and isinstance(y.value, ast.Subscript) and isinstance(y.value.slice, ast.Slice):
-                base = y.value.value
-                src = base
-                if isinstance(base, ast.Name):
-                    ds = [a for a in walk_local(it.node) if isinstance(a, ast.Assign)
-                          and any(isinstance(t, ast.Name) and t.id == base.id for t in a.targets)]
-                    src = ds[-1].value if ds else None
-                sc = _sorted_call(ctx, it, src) if src is not None else None
-                if sc is None:
-                    if "litism" in c.name:
-                        if it not in elit:
-                            elit.append(it)
-                        ctx.ob("C16.R1", it, y, "the elite is a prefix of the population ordered best-first", False,
-                               f"'{norm(y)[:60]}' cuts k individuals from '{norm(base)}', which is not the population sorted best-first "
-                               f"(it keeps population order): when more than k candidates qualify (ties at the cut-off) a strictly better "
-                               f"individual later in the population is excluded")
+        elit.append(it)
+        bad: dict[str, tuple] = {}
+        und = None
+        n = 0
+        for ranks in rank_sets:
+            for k in (1, 2, 3, 4):
+                try:
+                    runs = run_selection(ctx, c, it, tags, ranks, {t: [-ranks[t]] for t in tags}, [True], SelScript([], []), {}, target_size=k)
+                except Budget:
+                    und = "too many interpretations"
                     continue
-                if it not in elit:
-                    elit.append(it)
-                sorted_call, owner, inp = sc
-                key = next((k.value for k in sorted_call.keywords if k.arg == "key"), None)
-                rev = next((k.value for k in sorted_call.keywords if k.arg == "reverse"), None)
-                sign = _key_sign(ctx, owner, key)
-                reverse = False if rev is None else rev.value if isinstance(rev, ast.Constant) and isinstance(rev.value, bool) else None
-                sl = y.value.slice
-                side = None
-                bound = None
-                if sl.lower is None and sl.upper is not None and sl.step is None:
-                    side, bound = "prefix", sl.upper
-                elif sl.upper is None and isinstance(sl.lower, ast.UnaryOp) and isinstance(sl.lower.op, ast.USub) and sl.step is None:
-                    side, bound = "suffix", sl.lower.operand
-                if sign is None or reverse is None or side is None:
-                    ctx.ob("C16.R1", it, y, "elitism polarity", None,
-                           f"cannot classify key/reverse/slice ({norm(key) if key else None}, {norm(rev) if rev else None}, {norm(sl)})")
-                    continue
-                best_first = (sign > 0) == reverse
-                ok = (best_first and side == "prefix") or (not best_first and side == "suffix")
-                ctx.ob("C16.R1", it, y, "the slice keeps the k individuals with the largest maximising aggregate", ok,
-                       "" if ok else f"key sign {'+' if sign > 0 else '-'}aggregate, reverse={reverse}, {side} slice: the step "
-                                     f"returns the k WORST individuals",
-                       witness={"key_sign": sign, "reverse": reverse, "slice": side})
-                okb = isinstance(bound, ast.Name) and bound.id == "target_size"
-                ctx.ob("C16.R1", it, y, "the slice length is target_size", okb,
-                       "" if okb else f"the slice bound is '{norm(bound)}', not the requested number")
-                # ---- R2
-                ev_calls = [c_ for c_ in walk_local(it.node) if isinstance(c_, ast.Call) and call_name(c_) == "evaluate"
-                            and isinstance(c_.func, ast.Attribute) and receiver_may_be(ctx, it, c_.func.value, EVALUATOR)]
-                ystmt = enclosing_stmt(y)
-                ok2, why2 = False, "the population is sorted by fitness without having been evaluated in this step"
-                for c_ in ev_calls:
-                    if c_.lineno < ystmt.lineno and len(c_.args) >= 2:
-                        a1 = c_.args[1]
-                        while isinstance(a1, ast.Call) and call_name(a1) in ("list", "iter", "tuple") and a1.args:
-                            a1 = a1.args[0]
-                        while isinstance(inp, ast.Call) and call_name(inp) in ("list", "iter", "tuple") and inp.args:
-                            inp = inp.args[0]
-                        if inp is not None and isinstance(a1, ast.Name) and isinstance(inp, ast.Name) and a1.id == inp.id:
-                            sort_stmt_line = sorted_call.lineno if owner is it else (ds[-1].lineno if isinstance(base, ast.Name) and ds else ystmt.lineno)
-                            if c_.lineno < sort_stmt_line or owner is not it:
-                                ok2, why2 = True, ""
-                        elif inp is not None:
-                            why2 = f"the evaluator is given '{norm(a1)}' but '{norm(inp)}' is what gets sorted"
-                ctx.ob("C16.R2", it, y, "evaluated before sorted, same list", ok2, why2)
-    ctx.floor("C16.R1", len(elit), 1, "elitism-like steps (yield a slice of a sorted population)")
+                for trace, rv, notes in runs:
+                    if any(e.kind == "raise" for e in trace):
+                        und = und or f"a path raises ({[e.name for e in trace if e.kind == 'raise'][0]})"
+                        continue
+                    n += 1
+                    ys: list = []
+                    for e in trace:
+                        if e.kind == "yield":
+                            v = e.args[0]
+                            ys += (v if isinstance(v, list) else [UNKNOWN]) if e.name == "from" else [v]
+                    scen = {"aggregates": {t: ranks[t] for t in tags}, "target_size": k}
+                    if any(not (isinstance(y, Sym) and y.tag in tags) for y in ys):
+                        und = und or "a yielded value is not followed"
+                        continue
+                    got = [y.tag for y in ys]
+                    if len(got) != k:
+                        bad.setdefault("count", (f"{len(got)} individuals are kept for target_size {k}", scen))
+                        continue
+                    if len(set(got)) != len(got):
+                        bad.setdefault("best", (f"the elite {got} contains an individual twice: a place among the k best is wasted", scen))
+                    rest = [t for t in tags if t not in got]
+                    worst_in, best_out = min(ranks[t] for t in got), max([ranks[t] for t in rest], default=float("-inf"))
+                    if best_out > worst_in:
+                        b_ = next(t for t in rest if ranks[t] == best_out)
+                        w_ = next(t for t in got if ranks[t] == worst_in)
+                        bad.setdefault("best", (f"for target_size {k} the elite is {got}: {w_} (aggregate {worst_in}) is kept while the strictly "
+                                                f"better {b_} (aggregate {best_out}) is dropped", scen))
+        ctx.ob("C16.R1", it, it.node, f"{c.name}: the k individuals kept are k individuals with the largest maximising aggregates (ties, negatives; k = 1..4)",
+               False if "best" in bad else (None if und else True), bad["best"][0] if "best" in bad else (und or ""),
+               witness=bad["best"][1] if "best" in bad else {"scenarios": n})
+        ctx.ob("C16.R1", it, it.node, f"{c.name}: exactly target_size individuals are kept", False if "count" in bad else (None if und else True),
+               bad["count"][0] if "count" in bad else (und or ""), witness=bad["count"][1] if "count" in bad else None)
+        # ---- R2: evaluated (through the evaluator it is given) before it is ordered
+        ev_calls = [c_ for g in [it] + [prog.lookup_method(c, x.func.attr) for x in walk_local(it.node) if isinstance(x, ast.Call)
+                                        and isinstance(x.func, ast.Attribute) and is_self_attr(x.func) and prog.lookup_method(c, x.func.attr) is not None]
+                    for c_ in walk_local(g.node) if isinstance(c_, ast.Call) and call_name(c_) == "evaluate"
+                    and isinstance(c_.func, ast.Attribute) and receiver_may_be(ctx, g, c_.func.value, EVALUATOR)]
+        ok2 = None
+        why2 = "the population is ordered by fitness without having been evaluated in this step"
+        if ev_calls:
+            # in the model: the evaluator call precedes the first yield and is given every individual of the population
+            ok2 = True
+            class _Rec:
+                pass
+            ok2, why2 = _evaluated_before_use(ctx, c, it, tags, rank_sets[0])
+        ctx.ob("C16.R2", it, it.node, f"{c.name}: every individual is handed to the evaluator before the order is taken", ok2 if ev_calls else False,
+               "" if ok2 else why2)
+    ctx.floor("C16.R1", len(elit), 1, "elitism steps")
 
     # ---- R3
     ca = ConsumeAnalysis(prog, res)
@@ -185,34 +184,91 @@ def run(ctx: Ctx) -> None:
             n4 += 1
             itf = prog.lookup_method(t.cls, "iterate")
             hosts.add(itf.fullname if itf else "")
-            ok, why = _passes_whole(itf) if itf is not None else (False, "host has no iterate")
+            ok, why = _passes_whole(ctx, t.cls, itf) if itf is not None else (False, "host has no iterate")
             ctx.ob("C16.R4", f, c_, f"ElitismStep is hosted by {t.cls.name}, which hands sub-steps the whole population", ok,
                    "" if ok else f"{t.cls.name}: {why}; elitism would only see part of the population and the best "
                                  f"individual can be lost")
     ctx.floor("C16.R4", n4, 3, "builders placing ElitismStep under a parallel combinator")
 
 
-def _passes_whole(itf: FunctionInfo) -> tuple[bool, str]:
-    pop = "population"
-    whole = {pop}
-    for a in walk_local(itf.node):
-        if isinstance(a, (ast.Assign, ast.AnnAssign)):
-            tg = a.targets[0] if isinstance(a, ast.Assign) else a.target
-            v = a.value
-            if isinstance(tg, ast.Name) and v is not None:
-                if isinstance(v, ast.Call) and call_name(v) in ("list", "tuple") and v.args and isinstance(v.args[0], ast.Name) and v.args[0].id in whole:
-                    whole.add(tg.id)
-                elif isinstance(v, ast.ListComp) and len(v.generators) == 1 and not v.generators[0].ifs \
-                        and isinstance(v.generators[0].iter, ast.Name) and v.generators[0].iter.id in whole and isinstance(v.elt, ast.Name):
-                    whole.add(tg.id)
-    applies = [c for c in walk_local(itf.node) if isinstance(c, ast.Call) and call_name(c) == "apply" and len(c.args) >= 5]
-    if not applies:
-        return False, "no sub-step application found"
-    for c in applies:
-        a = c.args[4]
-        if isinstance(a, ast.Call) and call_name(a) == "iter" and a.args:
-            a = a.args[0]
-        if isinstance(a, ast.Name) and a.id in whole:
-            continue
-        return False, f"sub-steps receive '{norm(c.args[4])}'"
+def _evaluated_before_use(ctx: Ctx, cls, it: FunctionInfo, tags: list, ranks: dict) -> tuple[Optional[bool], str]:
+    """interpret iterate with an evaluator whose evaluate() is recorded: it must be called with all individuals before any
+    fitness is read (get_fitness / key function)"""
+    import ast as _ast
+    from ..modelinterp import Budget, Effect, Interp, Obj, Sym, UNKNOWN
+    state = {"evaluated": set(), "early": None}
+
+    def call_model(itp, call, env, args, kwargs):
+        nm = call_name(call)
+        recv = itp.ev(call.func.value, env, 9) if isinstance(call.func, _ast.Attribute) else None
+        if nm == "evaluate" and isinstance(recv, Sym) and recv.tag == "evaluator" and len(args) >= 2:
+            if isinstance(args[1], list):
+                state["evaluated"] |= {x.tag for x in args[1] if isinstance(x, Sym)}
+            return args[1]
+        if nm == "key_function":
+            return Sym("KEY")
+        if nm == "get_fitness" and isinstance(recv, Sym) and recv.tag in ranks:
+            if recv.tag not in state["evaluated"]:
+                state["early"] = state["early"] or recv.tag
+            return Obj("Fitness", {"maximizing_aggregate": ranks[recv.tag], "fitness_components": [ranks[recv.tag]]})
+        return None
+
+    def sym_result(fv, a):
+        if fv.tag == "KEY" and a and isinstance(a[0], Sym):
+            if a[0].tag not in state["evaluated"]:
+                state["early"] = state["early"] or a[0].tag
+            return ranks.get(a[0].tag, UNKNOWN)
+        return Sym(fv.tag + "()")
+
+    itp = Interp(ctx.prog, cls, lambda *_: None, call_model, max_depth=5, max_traces=8)
+    itp.sym_result = sym_result
+    itp.on_start = lambda: (state["evaluated"].clear(), state.__setitem__("early", None))
+    p = it.params
+    env = {"self": Sym("self"), p[1]: Sym("problem"), p[2]: Sym("evaluator"), p[3]: Sym("representation"), p[4]: Sym("random"),
+           p[5]: [Sym(t) for t in tags], p[6]: 2, p[7]: 0}
+    try:
+        runs = itp.run(it, env)
+    except Budget:
+        return None, "too many interpretations"
+    if state["early"]:
+        return False, f"the fitness of {state['early']} is read before the evaluator was given that individual: the order is taken over stale or missing fitness values"
+    if not set(tags) <= state["evaluated"]:
+        return False, f"the evaluator is given {sorted(state['evaluated'])}, not the whole population {tags}"
+    return True, ""
+
+
+def _passes_whole(ctx: Ctx, cls, itf: FunctionInfo) -> tuple[Optional[bool], str]:
+    """interpret the host combinator's iterate on four individuals, two sub-steps and equal weights: every sub-step
+    application must receive the complete population"""
+    import ast as _ast
+    from ..modelinterp import Budget, Effect, Interp, Sym, UNKNOWN
+    tags = ["i1", "i2", "i3", "i4"]
+    got: list = []
+
+    def call_model(itp, call, env, args, kwargs):
+        nm = call_name(call)
+        if nm in ("apply", "iterate") and isinstance(call.func, _ast.Attribute) and len(args) >= 6:
+            recv = itp.ev(call.func.value, env, 9)
+            if isinstance(recv, Sym) and recv.tag.startswith("step"):
+                pop = args[4]
+                got.append([x.tag if isinstance(x, Sym) else "?" for x in pop] if isinstance(pop, list) else None)
+                return []
+        return None
+
+    itp = Interp(ctx.prog, cls, lambda *_: None, call_model, max_depth=5, max_traces=8)
+    itp.on_start = got.clear
+    p = itf.params
+    env = {"self": Sym("self"), p[1]: Sym("problem"), p[2]: Sym("evaluator"), p[3]: Sym("representation"), p[4]: Sym("random"),
+           p[5]: [Sym(t) for t in tags], p[6]: 4, p[7]: 0, "self.steps": [Sym("step1"), Sym("step2")], "self.weights": [1, 1]}
+    try:
+        runs = itp.run(itf, env)
+    except Budget:
+        return None, "too many interpretations"
+    if not got:
+        return None, "no sub-step application is reached in the model"
+    for g in got:
+        if g is None:
+            return None, "the population handed to a sub-step is not followed"
+        if sorted(g) != tags:
+            return False, f"sub-steps receive {g} of the population {tags}"
     return True, ""
